@@ -87,6 +87,8 @@ def opt_expr(s, lang):
         return "opts.define('PROBE', %r)" % v
     if o == 'std':
         return "opts.std(%r)" % (v if lang == 'c' else CXXSTD[v])
+    if o == 'include' and v == 'cpath':
+        return "opts.include_dir(header_directory(env.srcdir.append('incdir').string()))"
     if o == 'include':
         return "opts.include_dir(header_directory('incdir'))"
     if o == 'sysinclude':
@@ -148,6 +150,9 @@ def run_case(case):
         link = {'link': [], 'globallink': []}
         env_extra, tc_lines, pch = {}, [], ''
         for s in slots:
+            if s['o'] == 'include' and s['v'] == 'cpath':
+                # (only while configuring: the build runs without CPATH)
+                env_extra['CPATH'] = os.path.join(src, 'incdir')
             if s['o'] == 'envdef':
                 env_extra['CFLAGS' if lang == 'c' else 'CXXFLAGS'] = \
                     '-DENVDEF=1'
